@@ -209,6 +209,8 @@ class CartesianToSpherical(Model):
         if self._wrap_lon_at != 180:
             lon = np.mod(lon, 360.0 * u.deg if nquant else 360.0, where=np.isfinite(lon), out=lon)
 
+        # the longitude does not depend on z: both outputs get the common shape of the inputs
+        lon, lat = np.broadcast_arrays(lon, lat, subok=True)
         return lon, lat
 
     def inverse(self):
